@@ -1,0 +1,36 @@
+//go:build verif
+
+package manifest
+
+// Contracts checked by /verif (govc). Comment-only file; not part of normal builds.
+
+// ---- C02: a manifest is exactly the bytes its digest names ----
+// Vocabulary (specs/extern.spec): $fromBytes(alg, content) is the digest of a byte string,
+// $json(v) the encoding/json serialisation of a value, $str(b) the content of a byte slice.
+//
+// updateDesc re-serialises the typed manifest and recomputes the descriptor from exactly those
+// bytes: afterwards the stored raw body is the serialisation of the current struct, the digest is
+// the hash of the raw body under the algorithm of the previous digest, the size is its length.
+//@ func (*{oci1Manifest,oci1Index,oci1Artifact,docker2Manifest,docker2ManifestList}).updateDesc() (err)
+//@   prop C02
+//@   let algo = m.desc.DigestAlgo()
+//@   ensures raw-is-serialisation: err == nil ==> $str(m.rawBody) == $json(m.GetOrig()) && len(m.rawBody) > 0
+//@   ensures digest-of-raw: err == nil ==> m.desc.Digest == $fromBytes(algo, $str(m.rawBody))
+//@   ensures size-of-raw: err == nil ==> m.desc.Size == len(m.rawBody)
+//@   ensures failure-changes-nothing: err != nil ==> m.rawBody == old(m.rawBody) && m.desc == old(m.desc)
+
+// Every setter that reports success leaves the manifest in the same state: the raw body is the
+// serialisation of the struct the getters read, and the descriptor is the hash and length of that
+// raw body (every setter funnels through updateDesc, or recomputes all three itself).
+//@ func (*{oci1Manifest,oci1Index,oci1Artifact,docker2Manifest,docker2ManifestList,docker1Manifest}).{SetAnnotation,SetConfig,SetLayers,SetManifestList,SetSubject,SetOrig}
+//@   prop C02
+//@   let algo = m.desc.DigestAlgo()
+//@   ensures raw-is-serialisation: result == nil ==> $str(m.rawBody) == $json(m.GetOrig()) && len(m.rawBody) > 0
+//@   ensures digest-of-raw: result == nil ==> m.desc.Digest == $fromBytes(algo, $str(m.rawBody))
+//@   ensures size-of-raw: result == nil ==> m.desc.Size == len(m.rawBody)
+// schema1 signed manifests are addressed by the digest of their canonical (unsigned) payload
+//@ func (*docker1SignedManifest).SetOrig(origIn) (err)
+//@   prop C02
+//@   let algo = m.desc.DigestAlgo()
+//@   ensures raw-is-serialisation: err == nil ==> $str(m.rawBody) == $json(m.GetOrig()) && len(m.rawBody) > 0
+//@   ensures digest-of-canonical: err == nil ==> m.desc.Digest == $fromBytes(algo, $str(m.SignedManifest.Canonical)) && m.desc.Size == len(m.SignedManifest.Canonical)
